@@ -98,6 +98,8 @@ def check(case, sub="photonic"):
             ("CircuitMaxEmitEffDepth", "depth_penalty", q["eff_depth"], not generic),
         ]
     metrics = {}
+    half = dict(desc, ops=desc["ops"][: len(desc["ops"]) // 2])
+    decoy = gc.build(half) if len(half["ops"]) != len(desc["ops"]) else None
 
     def evaluate_all(phase):
         for cname, kw, want, applies in table:
@@ -108,6 +110,10 @@ def check(case, sub="photonic"):
                 cls = getattr(gm, cname)
                 if (cname, mode) not in metrics:
                     metrics[(cname, mode)] = guarded(sub, icls, cls) if mode == "default" else guarded(sub, icls, cls, **{kw: pen})
+                    # a metric object that has already seen another circuit (the first half of this one) must not remember it
+                    if decoy is not None and not (cname.startswith("CircuitMaxEmit") and decoy.n_emitters == 0):
+                        guarded(sub, icls + ":decoy", metrics[(cname, mode)].evaluate, None, decoy)
+                        metrics[(cname, mode)].log.clear() if hasattr(metrics[(cname, mode)].log, "clear") else None
                 metric = metrics[(cname, mode)]
                 val = guarded(sub, icls, metric.evaluate, None, circ)
                 expect = want if mode == "default" else pen(want)
